@@ -290,7 +290,14 @@ func TestNestedRLockDeadlocksWhenAWriterSlipsIn(t *testing.T) {
 	o, _ := outcomes(t, 1<<20, func(rec func(string)) {
 		key := new(int)
 		fin := make(chan bool, 2)
-		Go("reader", func() { MuRLock(key); Yield("between"); MuRLock(key); MuRUnlock(key); MuRUnlock(key); Send(fin, true) })
+		Go("reader", func() {
+			MuRLock(key)
+			Yield("between")
+			MuRLock(key)
+			MuRUnlock(key)
+			MuRUnlock(key)
+			Send(fin, true)
+		})
 		Go("writer", func() { RWLock(key); MuUnlock(key); Send(fin, true) })
 		Recv(fin)
 		Recv(fin)
